@@ -45,8 +45,8 @@ ASSUMPTIONS = [
     "weights and metadata of the input are outside the statement (the models return a fresh "
     "unweighted hypergraph); weighted inputs are generated only to exercise the code path",
     "label in {'edge','stub'} only; label='vertex' and n_clash are outside the quantifier",
-    "a size/order argument is chosen among the sizes that have at least one hyperedge "
-    "(reshuffling an absent size is excluded by construction and counted)",
+    "a size/order argument mostly names a size that has hyperedges; one case in eight names an "
+    "absent size (nothing to reshuffle: all hyperedges must be returned intact)",
     "directed hyperedges are generated with disjoint non-empty source and target; whether the "
     "output keeps source and target disjoint is not claimed by the property and only labelled",
 ]
@@ -245,7 +245,8 @@ def _classify(case, ctx, sizes, changed, merged):
 def check_restricted(case, ctx):
     from hypergraphx.generation.configuration_model import configuration_model
     size, present = _chosen_size(case)
-    ctx.exclude("size/order argument naming a size without hyperedges (never generated)")
+    if size not in present:
+        ctx.label("size argument names an absent size")
     kw = _call_args(case)
     if case["by"] == "size":
         kw["size"] = size
@@ -293,6 +294,9 @@ def _chosen_size(case):
     """size_sel = 0 names the most frequent size, i > 0 the i-th other one."""
     cnt = Counter(len(e) for e in case["edges"])
     present = sorted(cnt, key=lambda k: (-cnt[k], k))
+    if case["size_sel"] % 8 == 7:
+        # a size without any hyperedge: nothing is reshuffled, everything is returned intact
+        return min(k for k in range(2, 9) if k not in cnt), present
     return present[case["size_sel"] % len(present)], present
 
 
@@ -378,7 +382,7 @@ def _hypergraph_cases(draw, tier, restricted):
     case["weights"] = (draw(st.lists(S.weights_int, min_size=len(edges), max_size=len(edges)))
                        if case["weighted"] else [])
     if restricted:
-        case["size_sel"] = draw(st.sampled_from([0, 0, 0, 1, 2, 3]))
+        case["size_sel"] = draw(st.sampled_from([0, 0, 0, 1, 2, 3, 7]))
         case["by"] = draw(st.sampled_from(["size", "order"]))
     return case
 
